@@ -50,8 +50,10 @@ impl ThickSegment {
     pub fn edges_bounding_box(&self) -> Rectangle {
         let (right, left) = self.edges();
 
+        // `intersection` draws a skeleton from the right edge only. The join code can collapse the
+        // start join of a wider stroke into a single point, in which case the two edges differ.
         if self.is_skeleton() {
-            return left.bounding_box();
+            return right.bounding_box();
         }
 
         Rectangle::with_corners(
